@@ -103,7 +103,7 @@ impl Prop for C03 {
     fn meta() -> Meta {
         Meta {
             level: "exploration",
-            rule: "Each run: a structured program from an AST grammar (LET, PRINT ;/, IF/THEN/ELSE forms, GOTO, GOSUB/RETURN, FOR/STEP/NEXT incl. NEXT of outer variables, READ/DATA/RESTORE, DIM + 1-3 dim cells, implicit arrays, DEF FN with shadowing/dynamic scoping, END, RND, optional intended runtime failures), printed to numbered BASIC, entered in shuffled order into the real interpreter and executed in lock-step with the reference model (per segment: records, state, error kind+line; at every error-free segment end also the scalar variables, array shapes, defined functions, open-loop table and frame count); half of the runs also inject transparent faults (break+CONT at PRNG-chosen turn boundaries, tracing/warnings on). distinct_nontrivial = distinct hashes of (program text, ticks, inputs, stops, final error, breaks fired) among runs that executed >= 5 turns.",
+            rule: "Each run: a structured program from an AST grammar (LET, PRINT ;/, IF/THEN/ELSE forms, GOTO, GOSUB/RETURN, FOR/STEP/NEXT incl. NEXT of outer variables, READ/DATA/RESTORE, DIM + 1-3 dim cells, implicit arrays, DEF FN with shadowing/dynamic scoping, END, RND, optional intended runtime failures), printed to numbered BASIC, entered in shuffled order into the real interpreter and executed in lock-step with the reference model (per segment: records, state, error kind+line; at every error-free segment end also the scalar variables and array shapes; where the program can be resumed — awaiting input or at a STOP — also the defined functions, open-loop table and frame count); half of the runs also inject transparent faults (break+CONT at PRNG-chosen turn boundaries, tracing/warnings on). distinct_nontrivial = distinct hashes of (program text, ticks, inputs, stops, final error, breaks fired) among runs that executed >= 5 turns.",
             real: &["abasic-core Interpreter (tokenizer, program store, statement and expression evaluators, RNG)"],
             stub: &["the host (enters lines, ticks, breaks, CONT)", "reference model: sim/src/model.rs executes the generator's AST (no tokenizer/parser shared)"],
             assumptions: &[
